@@ -95,3 +95,14 @@ package inproc
 // accepter list; Close changes both, so it wakes every waiter before it lets go of the lock ----
 //@ func (*listener).Close
 //@   before call:Unlock#1 assert called("Broadcast") && isnil(l.accepters)
+
+// ---- round 12: pipe options and Close ----
+//@ func (*inproc).GetOption
+//@   ensures name == mangos.OptionRemoteAddr || name == mangos.OptionLocalAddr ==> isnil(result1) && result0 == iface(p.addr)
+//@   ensures name != mangos.OptionRemoteAddr && name != mangos.OptionLocalAddr ==> isnil(result0) && result1 == mangos.ErrBadProperty
+//@
+//@ func (*inproc).Close
+//@   ensures isnil(result)
+//@
+//@ func (*inproc).Close$1
+//@   ensures closed(p.closeq)
